@@ -384,6 +384,8 @@ def plan_key_semantics(ctx):
         futs += key_cover_jobs(ctx, ["keytree"], 4, 2, [0], 6, export=0, limit=1200)
     futs += random_jobs(ctx, colls, 2 if q else 8, {"keys": 8, "tspan": 5, "steps": 2500 if q else 12000, "seglen": 70})
     futs += random_jobs(ctx, ["keytree"], 1 if q else 4, {"keys": 24, "tspan": 9, "steps": 1500 if q else 8000, "seglen": 200}, tag="-wide")
+    # many entries, slow expiry, no clears: when the caller's clock jumps, one search removes a long chain of roots
+    futs += random_jobs(ctx, ["keytree"], 1 if q else 3, {"keys": 60, "tspan": 40, "steps": 1500 if q else 8000, "seglen": 500, "clears": 0}, tag="-chain")
     ctx.collect(futs)
     return ctx.finish(
         "model: every history over the key universe and time line (fixpoint, unbounded length); conformance: TLC-generated "
